@@ -1,6 +1,6 @@
 // C09 - rejected template on a SESSION object: real SessionObject.cpp (attribute store + its transaction functions) under the real
 // P11Object::saveTemplate with the template (CKA_LABEL = symbolic bytes, <unknown attribute type>): the call fails, so the label must
-// be what it was before.  (SessionObject::abortTransaction does nothing in the pinned sources: see known-findings.txt.)
+// be what it was before.  (SessionObject transactions were no-ops in the pinned sources: repaired, see known-findings.txt.)
 #include "entry_env.h"
 #define private public
 #define protected public
@@ -26,7 +26,7 @@ extern "C" void harness(void)
 	CK_RV rv = p11.saveTemplate(env.token, false, tmpl, 2, OBJECT_OP_SET);
 	vassert(rv == CKR_ATTRIBUTE_TYPE_INVALID);
 	// no prefix of the rejected template is applied
-	vassert(o.attributeExists(CKA_LABEL) == hadLabel);
-	if (hadLabel) { ByteString now = o.getByteStringValue(CKA_LABEL); vassert(now.size() == 1 && now[0] == l0); }
+	vassert_id(o.attributeExists(CKA_LABEL) == hadLabel, 19001);
+	if (hadLabel) { ByteString now = o.getByteStringValue(CKA_LABEL); vassert_id(now.size() == 1 && now[0] == l0, 19002); }
 	vreach();
 }
